@@ -1,1 +1,638 @@
+(* Proofs for the auxparse domain: totality (no Panic, no Diverge) of every parser of Model.v, the exact
+   outcome of fastRTPUnmarshal, its relation to pion's Packet.Unmarshal, and the shape of what the
+   RTCP walks return. *)
+From Coq Require Import ZifyBool ZifyNat ZifyN.
+From GVL Require Import NList Wire.
+From GVG Require Import Consts.
 From GV_auxparse Require Import Model.
+Open Scope N_scope.
+
+Definition safe {A} (r : res A) : Prop :=
+  match r with Panic | Diverge => False | _ => True end.
+Definition xsafe (r : xres) : Prop :=
+  match r with XPanic | XDiverge => False | _ => True end.
+
+Lemma safe_spec {A} (r : res A) : safe r <-> r <> Panic /\ r <> Diverge.
+Proof. destruct r; cbn; split; try tauto; try (intros _; split; discriminate); intros [H1 H2]; congruence. Qed.
+
+(* ---------- checked accessors ---------- *)
+Lemma nnth_in l i : i < nlen l -> exists x : N, nnth i l = Some x.
+Proof. apply nnth_lt. Qed.
+
+Lemma nsub_in (l : list N) i j : i <= j -> j <= nlen l -> nsub l i j = Some (ntake (j - i) (ndrop i l)).
+Proof.
+  intros H1 H2. unfold nsub.
+  destruct (N.leb_spec i j); [|lia]. destruct (N.leb_spec j (nlen l)); [|lia]. reflexivity.
+Qed.
+
+Lemma nsub_inv (l : list N) i j s : nsub l i j = Some s -> i <= j /\ j <= nlen l /\ s = ntake (j - i) (ndrop i l).
+Proof.
+  unfold nsub. destruct (N.leb_spec i j); destruct (N.leb_spec j (nlen l)); cbn [andb]; intros E; inversion E; repeat split; auto.
+Qed.
+
+Lemma be16_in l off : off + 2 <= nlen l -> exists v, be16 l off = Some v.
+Proof.
+  intros H. unfold be16.
+  destruct (nnth_in l off) as [a ->]; [lia|]. destruct (nnth_in l (off + 1)) as [b ->]; [lia|]. eauto.
+Qed.
+
+Lemma be32_in l off : off + 4 <= nlen l -> exists v, be32 l off = Some v.
+Proof.
+  intros H. unfold be32.
+  destruct (nnth_in l off) as [a ->]; [lia|]. destruct (nnth_in l (off + 1)) as [b ->]; [lia|].
+  destruct (nnth_in l (off + 2)) as [c ->]; [lia|]. destruct (nnth_in l (off + 3)) as [d ->]; [lia|]. eauto.
+Qed.
+
+Lemma zsub_in (l : list N) (i j : Z) : (0 <= i)%Z -> (i <= j)%Z -> (j <= Z.of_N (nlen l))%Z ->
+  zsub l i j = Some (ntake (Z.to_N (j - i)) (ndrop (Z.to_N i) l)).
+Proof.
+  intros H1 H2 H3. unfold zsub.
+  destruct (Z.leb_spec 0 i); [|lia]. destruct (Z.leb_spec i j); [|lia].
+  destruct (Z.leb_spec j (Z.of_N (nlen l))); [|lia]. reflexivity.
+Qed.
+
+Lemma zsub_inv (l : list N) (i j : Z) s : zsub l i j = Some s ->
+  (0 <= i)%Z /\ (i <= j)%Z /\ (j <= Z.of_N (nlen l))%Z /\ s = ntake (Z.to_N (j - i)) (ndrop (Z.to_N i) l).
+Proof.
+  unfold zsub. destruct (Z.leb_spec 0 i); destruct (Z.leb_spec i j);
+    destruct (Z.leb_spec j (Z.of_N (nlen l))); cbn [andb]; intros E; inversion E; repeat split; auto.
+Qed.
+
+Lemma znth_in (l : list N) (i : Z) : (0 <= i)%Z -> (i < Z.of_N (nlen l))%Z -> exists x, znth l i = Some x.
+Proof.
+  intros H1 H2. unfold znth. destruct (Z.ltb_spec i 0); [lia|]. apply nnth_in. lia.
+Qed.
+
+(* a slice splits its list *)
+Lemma slice_split (l : list N) (i k : N) : i + k <= nlen l ->
+  l = ntake i l ++ ntake k (ndrop i l) ++ ndrop k (ndrop i l) /\
+  nlen (ntake i l) = i /\ nlen (ntake k (ndrop i l)) = k /\ nlen (ndrop k (ndrop i l)) = nlen l - i - k.
+Proof.
+  intros H. split; [|split; [|split]].
+  - rewrite ntake_ndrop, ntake_ndrop. reflexivity.
+  - rewrite nlen_ntake. lia.
+  - rewrite nlen_ntake, nlen_ndrop. lia.
+  - rewrite !nlen_ndrop. lia.
+Qed.
+
+(* ================= fastRTPUnmarshal ================= *)
+
+(* the padding size the code reads: the last byte when the Padding flag is set, else 0 *)
+Definition pad_size (payload : list N) (pad : bool) : option N :=
+  if pad then (if nlen payload =? 0 then None else nnth (nlen payload - 1) payload) else Some 0.
+
+Lemma fast_total payload pad hs : (0 <= hs)%Z -> safe (fast_rtp_unmarshal payload pad hs).
+Proof.
+  intros Hhs. unfold fast_rtp_unmarshal. destruct pad.
+  - destruct (Z.leb_spec (Z.of_N (nlen payload)) hs) as [|Hlt]; [exact I|].
+    destruct (znth_in payload (Z.of_N (nlen payload) - 1)) as [ps ->]; [lia|lia|].
+    destruct (Z.ltb_spec (Z.of_N (nlen payload) - Z.of_N ps) hs) as [|Hge]; [exact I|].
+    rewrite zsub_in by lia. exact I.
+  - destruct (Z.ltb_spec (Z.of_N (nlen payload)) hs) as [|Hge]; [exact I|].
+    rewrite zsub_in by lia. exact I.
+Qed.
+
+(* exactly which combinations are refused, for a non-negative header size *)
+Lemma fast_errors payload pad hs : (0 <= hs)%Z ->
+  (fast_rtp_unmarshal payload pad hs = Err e_fast_pad_no_room <->
+     pad = true /\ (Z.of_N (nlen payload) <= hs)%Z) /\
+  (fast_rtp_unmarshal payload pad hs = Err e_fast_end_before <->
+     (pad = false /\ (Z.of_N (nlen payload) < hs)%Z) \/
+     (pad = true /\ (hs < Z.of_N (nlen payload))%Z /\
+        exists ps, nnth (nlen payload - 1) payload = Some ps /\ (Z.of_N (nlen payload) - Z.of_N ps < hs)%Z)) /\
+  (forall e, fast_rtp_unmarshal payload pad hs = Err e -> e = e_fast_pad_no_room \/ e = e_fast_end_before).
+Proof.
+  intros Hhs. unfold fast_rtp_unmarshal, e_fast_pad_no_room, e_fast_end_before. destruct pad.
+  - destruct (Z.leb_spec (Z.of_N (nlen payload)) hs) as [Hle|Hlt].
+    + split; [|split].
+      * split; [intros _; split; [reflexivity|lia] | reflexivity].
+      * split; [discriminate|]. intros [[H _]|(_ & H & _)]; [discriminate|lia].
+      * intros e H; inversion H; auto.
+    + destruct (znth_in payload (Z.of_N (nlen payload) - 1)) as [ps Hps]; [lia|lia|]. rewrite Hps.
+      assert (Hn : nnth (nlen payload - 1) payload = Some ps).
+      { unfold znth in Hps. destruct (Z.ltb_spec (Z.of_N (nlen payload) - 1) 0); [lia|].
+        replace (nlen payload - 1) with (Z.to_N (Z.of_N (nlen payload) - 1)) by lia. exact Hps. }
+      destruct (Z.ltb_spec (Z.of_N (nlen payload) - Z.of_N ps) hs) as [Hb|Hge].
+      * split; [|split].
+        -- split; [discriminate|]. intros [_ H]; lia.
+        -- split; [|reflexivity]. intros _. right. split; [reflexivity|]. split; [lia|]. exists ps. split; [exact Hn|lia].
+        -- intros e H; inversion H; auto.
+      * rewrite zsub_in by lia. split; [|split].
+        -- split; [discriminate|]. intros [_ H]; lia.
+        -- split; [discriminate|]. intros [[H _]|(_ & _ & ps' & Hps' & Hlt')]; [discriminate|].
+           rewrite Hn in Hps'. inversion Hps'; subst. lia.
+        -- intros e H; discriminate.
+  - destruct (Z.ltb_spec (Z.of_N (nlen payload)) hs) as [Hb|Hge].
+    + split; [|split].
+      * split; [discriminate|]. intros [H _]; discriminate.
+      * split; [|reflexivity]. intros _. left. split; [reflexivity|lia].
+      * intros e H; inversion H; auto.
+    + rewrite zsub_in by lia. split; [|split].
+      * split; [discriminate|]. intros [H _]; discriminate.
+      * split; [discriminate|]. intros [[_ H]|(H & _)]; [lia|discriminate].
+      * intros e H; discriminate.
+Qed.
+
+(* when it succeeds, the datagram is  header (hs bytes) ++ payload ++ padding (PaddingSize bytes) *)
+Lemma fast_payload payload pad hs f : (0 <= hs)%Z ->
+  fast_rtp_unmarshal payload pad hs = Ok f ->
+  pad_size payload pad = Some (fo_padsize f) /\
+  exists pre suf, payload = pre ++ fo_payload f ++ suf /\
+                  Z.of_N (nlen pre) = hs /\ nlen suf = fo_padsize f /\
+                  fo_payload f = ntake (nlen payload - fo_padsize f - Z.to_N hs) (ndrop (Z.to_N hs) payload).
+Proof.
+  intros Hhs. unfold fast_rtp_unmarshal, pad_size. destruct pad.
+  - destruct (Z.leb_spec (Z.of_N (nlen payload)) hs) as [|Hlt]; [discriminate|].
+    destruct (znth payload (Z.of_N (nlen payload) - 1)) as [ps|] eqn:Hps; [|discriminate].
+    destruct (Z.ltb_spec (Z.of_N (nlen payload) - Z.of_N ps) hs) as [|Hge]; [discriminate|].
+    destruct (zsub payload hs (Z.of_N (nlen payload) - Z.of_N ps)) as [p|] eqn:Hs; [|discriminate].
+    intros H; inversion H; subst f; clear H. cbn [fo_padsize fo_payload].
+    apply zsub_inv in Hs. destruct Hs as (H0 & H1 & H2 & ->).
+    split.
+    + destruct (N.eqb_spec (nlen payload) 0); [lia|].
+      unfold znth in Hps. destruct (Z.ltb_spec (Z.of_N (nlen payload) - 1) 0); [lia|].
+      replace (nlen payload - 1) with (Z.to_N (Z.of_N (nlen payload) - 1)) by lia. exact Hps.
+    + destruct (slice_split payload (Z.to_N hs) (Z.to_N (Z.of_N (nlen payload) - Z.of_N ps - hs))) as (E & L1 & L2 & L3); [lia|].
+      exists (ntake (Z.to_N hs) payload), (ndrop (Z.to_N (Z.of_N (nlen payload) - Z.of_N ps - hs)) (ndrop (Z.to_N hs) payload)).
+      split; [exact E|]. split; [lia|]. split; [lia|]. f_equal. lia.
+  - destruct (Z.ltb_spec (Z.of_N (nlen payload)) hs) as [|Hge]; [discriminate|].
+    destruct (zsub payload hs (Z.of_N (nlen payload))) as [p|] eqn:Hs; [|discriminate].
+    intros H; inversion H; subst f; clear H. cbn [fo_padsize fo_payload].
+    apply zsub_inv in Hs. destruct Hs as (H0 & H1 & H2 & ->).
+    split; [reflexivity|].
+    destruct (slice_split payload (Z.to_N hs) (Z.to_N (Z.of_N (nlen payload) - hs))) as (E & L1 & L2 & L3); [lia|].
+    exists (ntake (Z.to_N hs) payload), (ndrop (Z.to_N (Z.of_N (nlen payload) - hs)) (ndrop (Z.to_N hs) payload)).
+    split; [exact E|]. split; [lia|]. split; [lia|]. f_equal. lia.
+Qed.
+
+(* the precondition 0 <= headerSize is necessary: a negative header size that is not refused panics *)
+Lemma fast_negative_header_size_panics payload hs : (hs < 0)%Z ->
+  fast_rtp_unmarshal payload false hs = Panic.
+Proof.
+  intros H. unfold fast_rtp_unmarshal.
+  destruct (Z.ltb_spec (Z.of_N (nlen payload)) hs); [lia|].
+  unfold zsub. destruct (Z.leb_spec 0 hs); [lia|]. reflexivity.
+Qed.
+
+(* ================= pion rtp.Header.Unmarshal ================= *)
+
+Lemma read_csrc_in buf k off : off + 4 * N.of_nat k <= nlen buf ->
+  exists r, read_csrc buf k off = Some r /\ nlen r = N.of_nat k.
+Proof.
+  revert off; induction k as [|k IH]; intros off H; cbn [read_csrc].
+  - exists []. split; reflexivity.
+  - destruct (be32_in buf off) as [v ->]; [lia|].
+    unfold aux_rtp_csrc_length.
+    destruct (IH (off + 4)) as (r & -> & Hr); [lia|].
+    exists (v :: r). split; [reflexivity|]. cbn [nlen]. lia.
+Qed.
+
+Lemma ext_loop_safe buf ob ext_end : ext_end <= nlen buf ->
+  forall fuel n acc, ext_end <= n + nlen fuel -> xsafe (ext_loop fuel buf ob ext_end n acc).
+Proof.
+  intros Hend. induction fuel as [|x fuel IH]; intros n acc Hf; cbn [ext_loop].
+  - destruct (N.leb_spec ext_end n); [exact I|]. cbn [nlen] in Hf. lia.
+  - destruct (N.leb_spec ext_end n) as [|Hlt]; [exact I|].
+    cbn [nlen] in Hf.
+    destruct (nnth_in buf n) as [b ->]; [lia|].
+    destruct (b =? aux_rtp_extid_padding); [apply IH; lia|].
+    destruct ob.
+    + destruct ((N.shiftr b 4 =? aux_rtp_extid_reserved) || (N.shiftr b 4 =? aux_rtp_extid_padding))%bool; [exact I|].
+      destruct (N.ltb_spec ext_end (n + 1 + (N.land b 15 + 1))) as [|Hge]; [exact I|].
+      rewrite nsub_in by lia. apply IH. lia.
+    + destruct (N.leb_spec ext_end (n + 1)) as [|Hlt1]; [exact I|].
+      destruct (nnth_in buf (n + 1)) as [pl ->]; [lia|].
+      destruct (N.ltb_spec ext_end (n + 1 + 1 + pl)) as [|Hge]; [exact I|].
+      rewrite nsub_in by lia. apply IH. lia.
+Qed.
+
+Ltac unfold_rtp_consts :=
+  unfold aux_rtp_header_length, aux_rtp_cc_mask, aux_rtp_csrc_offset, aux_rtp_csrc_length,
+         aux_rtp_seq_offset, aux_rtp_ts_offset, aux_rtp_ssrc_offset in *.
+
+Lemma land15 b : N.land b 15 <= 15.
+Proof.
+  replace (N.land b 15) with (b mod 16) by (symmetry; exact (N.land_ones b 4)).
+  pose proof (N.mod_upper_bound b 16). lia.
+Qed.
+
+(* never panics, always terminates; and what it returns as header size lies inside the datagram *)
+Lemma rtp_header_unmarshal_spec buf :
+  match rtp_header_unmarshal buf with
+  | Ok (h, n) => 12 + 4 * nlen (h_csrc h) <= n <= nlen buf /\ nlen (h_csrc h) <= 15 /\
+                 (h_extension h = false -> n = 12 + 4 * nlen (h_csrc h) /\ h_exts h = []) /\
+                 (h_extension h = true -> 16 + 4 * nlen (h_csrc h) <= n /\ (n - 4 * nlen (h_csrc h)) mod 4 = 0)
+  | Err e => e = e_rtp_short \/ e = e_rtp_short_ext
+  | Panic | Diverge => False
+  end.
+Proof.
+  unfold rtp_header_unmarshal. unfold_rtp_consts.
+  destruct (N.ltb_spec (nlen buf) 4) as [|H4]; [left; reflexivity|].
+  destruct (nnth_in buf 0) as [b0 ->]; [lia|].
+  pose proof (land15 b0) as Hcc. set (cc := N.land b0 15) in *.
+  destruct (N.ltb_spec (nlen buf) (12 + cc * 4)) as [|Hn]; [left; reflexivity|].
+  destruct (nnth_in buf 1) as [b1 ->]; [lia|].
+  destruct (be16_in buf 2) as [sq ->]; [lia|].
+  destruct (be32_in buf 4) as [ts ->]; [lia|].
+  destruct (be32_in buf 8) as [ssrc ->]; [lia|].
+  destruct (read_csrc_in buf (N.to_nat cc) 12) as (csrc & -> & Hcs); [lia|].
+  destruct (0 <? bits b0 aux_rtp_extension_shift aux_rtp_extension_mask) eqn:Hext.
+  - destruct (N.ltb_spec (nlen buf) (12 + cc * 4 + 4)) as [|Hn4]; [right; reflexivity|].
+    destruct (be16_in buf (12 + cc * 4)) as [profile ->]; [lia|].
+    destruct (be16_in buf (12 + cc * 4 + 2)) as [xl ->]; [lia|].
+    destruct (N.ltb_spec (nlen buf) (12 + cc * 4 + 4 + xl * 4)) as [|Hend]; [right; reflexivity|].
+    destruct ((profile =? aux_rtp_ext_onebyte) || (profile =? aux_rtp_ext_twobyte))%bool.
+    + pose proof (ext_loop_safe buf (profile =? aux_rtp_ext_onebyte) (12 + cc * 4 + 4 + xl * 4) Hend buf (12 + cc * 4 + 4) []) as Hs.
+      destruct (ext_loop buf buf (profile =? aux_rtp_ext_onebyte) (12 + cc * 4 + 4 + xl * 4) (12 + cc * 4 + 4) []);
+        cbn [xsafe] in Hs; try (apply Hs; lia).
+      * cbn [h_csrc h_extension h_exts]. rewrite Hcs.
+        split; [lia|]. split; [lia|]. split; [discriminate|]. intros _. split; [lia|].
+        replace (12 + cc * 4 + 4 + xl * 4 - 4 * N.of_nat (N.to_nat cc)) with ((4 + xl) * 4) by lia.
+        apply N.mod_mul. lia.
+      * right; reflexivity.
+    + rewrite nsub_in by lia.
+      cbn [h_csrc h_extension h_exts]. rewrite Hcs.
+      split; [lia|]. split; [lia|]. split; [discriminate|]. intros _. split; [lia|].
+      replace (12 + cc * 4 + 4 + xl * 4 - 4 * N.of_nat (N.to_nat cc)) with ((4 + xl) * 4) by lia.
+      apply N.mod_mul. lia.
+  - cbn [h_csrc h_extension h_exts]. rewrite Hcs.
+    split; [lia|]. split; [lia|]. split; [intros _; split; [lia|reflexivity]|discriminate].
+Qed.
+
+Lemma rtp_header_unmarshal_total buf : safe (rtp_header_unmarshal buf).
+Proof.
+  pose proof (rtp_header_unmarshal_spec buf) as H.
+  destruct (rtp_header_unmarshal buf) as [[h n]| | |]; cbn [safe]; auto.
+Qed.
+
+Lemma rtp_header_size_in_range buf h n : rtp_header_unmarshal buf = Ok (h, n) -> 12 <= n <= nlen buf.
+Proof.
+  intros E. pose proof (rtp_header_unmarshal_spec buf) as H. rewrite E in H. lia.
+Qed.
+
+(* the whole read path (without SRTP): header.Unmarshal then fastRTPUnmarshal *)
+Lemma rtp_read_path_total buf : safe (rtp_read_path buf).
+Proof.
+  unfold rtp_read_path.
+  pose proof (rtp_header_unmarshal_total buf) as H.
+  destruct (rtp_header_unmarshal buf) as [[h n]| | |]; cbn [safe xsafe] in *; auto.
+  pose proof (fast_total buf (h_padding h) (Z.of_N n) ltac:(lia)) as Hf.
+  destruct (fast_rtp_unmarshal buf (h_padding h) (Z.of_N n)); cbn [safe xsafe] in *; auto.
+Qed.
+
+(* with SRTP the payload handed to fastRTPUnmarshal is the decrypted one (another length), the header
+   and headerSize still come from header.Unmarshal of the datagram: any payload is fine *)
+Lemma rtp_read_path_any_payload_total buf h n payload :
+  rtp_header_unmarshal buf = Ok (h, n) -> safe (fast_rtp_unmarshal payload (h_padding h) (Z.of_N n)).
+Proof. intros _. apply fast_total. lia. Qed.
+
+(* ----- relation with pion's Packet.Unmarshal on the same bytes ----- *)
+Lemma fast_vs_pion buf h n : rtp_header_unmarshal buf = Ok (h, n) ->
+  match pion_packet_unmarshal buf with
+  | Ok (h', f) => h' = h /\ fast_rtp_unmarshal buf (h_padding h) (Z.of_N n) = Ok f /\ (h_padding h = true -> fo_padsize f <> 0)
+  | Err e =>
+      (e = e_rtp_too_small /\ exists e', fast_rtp_unmarshal buf (h_padding h) (Z.of_N n) = Err e') \/
+      (e = e_rtp_bad_padding /\ h_padding h = true /\ nnth (nlen buf - 1) buf = Some 0 /\
+       fast_rtp_unmarshal buf true (Z.of_N n) =
+         Ok (mkFast 0 (ntake (nlen buf - n) (ndrop n buf))))
+  | Panic | Diverge => False
+  end.
+Proof.
+  intros E. pose proof (rtp_header_size_in_range buf h n E) as Hn.
+  unfold pion_packet_unmarshal, fast_rtp_unmarshal. rewrite E.
+  destruct (h_padding h).
+  - destruct (Z.leb_spec (Z.of_N (nlen buf)) (Z.of_N n)) as [|Hlt]; [left; split; [reflexivity|eauto]|].
+    destruct (znth_in buf (Z.of_N (nlen buf) - 1)) as [ps Hps]; [lia|lia|]. rewrite Hps.
+    destruct (N.eqb_spec ps 0) as [->|Hnz].
+    + right. split; [reflexivity|]. split; [reflexivity|]. split.
+      * unfold znth in Hps. destruct (Z.ltb_spec (Z.of_N (nlen buf) - 1) 0); [lia|].
+        replace (nlen buf - 1) with (Z.to_N (Z.of_N (nlen buf) - 1)) by lia. exact Hps.
+      * destruct (Z.ltb_spec (Z.of_N (nlen buf) - Z.of_N 0) (Z.of_N n)); [lia|].
+        rewrite zsub_in by lia.
+        replace (Z.to_N (Z.of_N (nlen buf) - Z.of_N 0 - Z.of_N n)) with (nlen buf - n) by lia.
+        replace (Z.to_N (Z.of_N n)) with n by lia. reflexivity.
+    + destruct (Z.ltb_spec (Z.of_N (nlen buf) - Z.of_N ps) (Z.of_N n)) as [|Hge]; [left; split; [reflexivity|eauto]|].
+      rewrite zsub_in by lia. split; [reflexivity|]. split; [reflexivity|]. intros _. exact Hnz.
+  - destruct (Z.ltb_spec (Z.of_N (nlen buf)) (Z.of_N n)) as [|Hge]; [left; split; [reflexivity|eauto]|].
+    rewrite zsub_in by lia. split; [reflexivity|]. split; [reflexivity|]. discriminate.
+Qed.
+
+(* ================= RTCP ================= *)
+
+Lemma rtcp_header_spec raw :
+  match rtcp_header_unmarshal raw with
+  | Ok h => 4 <= nlen raw /\ be16 raw 2 = Some (rh_length h)
+  | Err e => e = e_rtcp_short \/ e = e_rtcp_version
+  | Panic | Diverge => False
+  end.
+Proof.
+  unfold rtcp_header_unmarshal, aux_rtcp_header_length.
+  destruct (N.ltb_spec (nlen raw) 4) as [|H4]; [left; reflexivity|].
+  destruct (nnth_in raw 0) as [b0 ->]; [lia|]. destruct (nnth_in raw 1) as [b1 ->]; [lia|].
+  destruct (be16_in raw 2) as [len Hl]; [lia|]. rewrite Hl.
+  destruct (negb _); [right; reflexivity|]. cbn [rh_length]. split; [lia|reflexivity].
+Qed.
+
+(* the header of a prefix that still holds the 4 header bytes is the same header *)
+Lemma nnth_ntake (l : list N) k i : i < k -> nnth i (ntake k l) = nnth i l.
+Proof.
+  revert k i; induction l as [|x t IH]; intros k i H; cbn [ntake nnth]; [reflexivity|].
+  destruct (N.eqb_spec k 0); [lia|]. cbn [nnth].
+  destruct (N.eqb_spec i 0); [reflexivity|]. apply IH. lia.
+Qed.
+
+Lemma rtcp_header_prefix raw k : 4 <= k -> k <= nlen raw ->
+  rtcp_header_unmarshal (ntake k raw) = rtcp_header_unmarshal raw.
+Proof.
+  intros Hk Hl. unfold rtcp_header_unmarshal, be16, aux_rtcp_header_length.
+  rewrite nlen_ntake.
+  destruct (N.ltb_spec (N.min k (nlen raw)) 4); [lia|]. destruct (N.ltb_spec (nlen raw) 4); [lia|].
+  rewrite !nnth_ntake by lia. reflexivity.
+Qed.
+
+(* ----- gortsplib's tolerant SDES parser ----- *)
+Lemma sdes_item_safe raw : safe (sdes_item_unmarshal raw).
+Proof.
+  unfold sdes_item_unmarshal, aux_sdes_text_offset.
+  destruct (N.ltb_spec (nlen raw) 2) as [|H2]; [exact I|].
+  destruct (nnth_in raw 0) as [ty ->]; [lia|]. destruct (nnth_in raw 1) as [oc ->]; [lia|].
+  destruct (N.ltb_spec (nlen raw) (2 + oc)) as [|H]; [exact I|].
+  rewrite nsub_in by lia. exact I.
+Qed.
+
+Lemma sdes_items_safe : forall fuel body acc, nlen body <= nlen fuel -> safe (sdes_items fuel body acc).
+Proof.
+  induction fuel as [|x fuel IH]; intros body acc Hf; cbn [sdes_items].
+  - cbn [nlen] in Hf. destruct (N.eqb_spec (nlen body) 0); [exact I|lia].
+  - destruct (N.eqb_spec (nlen body) 0) as [|Hnz]; [exact I|]. cbn [nlen] in Hf.
+    destruct (nnth_in body 0) as [b0 ->]; [lia|].
+    destruct (b0 =? 0).
+    + rewrite nsub_in by lia. exact I.
+    + destruct (N.ltb_spec (nlen body) 2) as [|H2]; [exact I|].
+      destruct (nnth_in body 1) as [l1 ->]; [lia|].
+      destruct (N.ltb_spec (nlen body) (2 + l1)) as [|Hil]; [exact I|].
+      destruct (N.eqb_spec (2 + l1) (nlen body)) as [Heq|Hne].
+      * pose proof (sdes_item_safe body) as Hs. destruct (sdes_item_unmarshal body); cbn [safe xsafe] in *; auto.
+      * rewrite !nsub_in by lia.
+        pose proof (sdes_item_safe (ntake (2 + l1 - 0) (ndrop 0 body))) as Hs.
+        destruct (sdes_item_unmarshal (ntake (2 + l1 - 0) (ndrop 0 body))); cbn [safe xsafe] in *; auto.
+        apply IH. rewrite nlen_ntake, nlen_ndrop. lia.
+Qed.
+
+Lemma sdes_tolerant_safe raw h : safe (sdes_tolerant raw h).
+Proof.
+  unfold sdes_tolerant, aux_rtcpu_header_length.
+  destruct (negb (rh_count h =? 1) || (nlen raw <? 4 + 4))%bool eqn:E; [exact I|].
+  assert (H8 : 8 <= nlen raw) by lia.
+  rewrite nsub_in by lia.
+  set (body := ntake (nlen raw - 4) (ndrop 4 raw)).
+  assert (Hb : nlen body = nlen raw - 4) by (unfold body; rewrite nlen_ntake, nlen_ndrop; lia).
+  destruct (N.ltb_spec (nlen body) 4); [exact I|].
+  destruct (be32_in body 0) as [src ->]; [lia|].
+  rewrite nsub_in by lia.
+  pose proof (sdes_items_safe (ntake (nlen body - 4) (ndrop 4 body)) (ntake (nlen body - 4) (ndrop 4 body)) [] ltac:(lia)) as Hs.
+  destruct (sdes_items _ _ _) as [[[items rest]|]| | |]; cbn [safe xsafe] in *; auto.
+  destruct (nlen rest =? 0); exact I.
+Qed.
+
+(* ----- the walks ----- *)
+
+(* the packets tile [off, fin): consecutive, each at least one 32-bit word, each a whole number of words *)
+Fixpoint tiles (off : N) (ps : list rpkt) (fin : N) : Prop :=
+  match ps with
+  | [] => off = fin
+  | p :: t => p_off p = off /\ 4 <= p_len p /\ p_len p mod 4 = 0 /\ tiles (off + p_len p) t fin
+  end.
+
+Lemma tiles_app off ps mid qs fin : tiles off ps mid -> tiles mid qs fin -> tiles off (ps ++ qs) fin.
+Proof.
+  revert off; induction ps as [|p t IH]; intros off H1 H2; cbn [tiles app] in *.
+  - subst. exact H2.
+  - destruct H1 as (A & B & C & D). repeat split; auto.
+Qed.
+
+Lemma tiles_count off ps fin : tiles off ps fin -> off + 4 * nlen ps <= fin.
+Proof.
+  revert off; induction ps as [|p t IH]; intros off H; cbn [tiles nlen] in *.
+  - lia.
+  - destruct H as (A & B & C & D). apply IH in D. lia.
+Qed.
+
+Lemma nlen_rev {A} (l : list A) : nlen (rev l) = nlen l.
+Proof. rewrite !nlen_length, rev_length. reflexivity. Qed.
+
+Section WalkProofs.
+Variable body : N -> list N -> res unit.
+Hypothesis body_total : forall off b, safe (body off b).
+
+Lemma pion_unmarshal1_spec off raw :
+  match pion_unmarshal1 body off raw with
+  | Ok (k, bp) => 4 <= bp <= nlen raw /\ bp mod 4 = 0 /\
+                  exists h, rtcp_header_unmarshal raw = Ok h /\ bp = (rh_length h + 1) * 4 /\
+                            k = rtcp_kind (rh_type h) (rh_count h) /\ body off (ntake bp raw) = Ok tt
+  | Err _ => True
+  | Panic | Diverge => False
+  end.
+Proof.
+  unfold pion_unmarshal1.
+  pose proof (rtcp_header_spec raw) as Hh.
+  destruct (rtcp_header_unmarshal raw) as [h| | |]; auto.
+  destruct (N.ltb_spec (nlen raw) ((rh_length h + 1) * 4)) as [|Hbp]; [exact I|].
+  rewrite nsub_in by lia.
+  replace ((rh_length h + 1) * 4 - 0) with ((rh_length h + 1) * 4) by lia. rewrite ndrop_0.
+  pose proof (body_total off (ntake ((rh_length h + 1) * 4) raw)) as Hb.
+  destruct (body off (ntake ((rh_length h + 1) * 4) raw)) as [[]| | |] eqn:Eb; cbn [safe xsafe] in Hb; auto.
+  split; [lia|]. split; [apply N.mod_mul; lia|].
+  exists h. repeat split; auto.
+Qed.
+
+Lemma pion_walk_spec : forall fuel off raw acc base,
+  nlen raw <= nlen fuel -> tiles base (rev acc) off ->
+  match pion_walk body fuel off raw acc with
+  | Ok ps => tiles base ps (off + nlen raw)
+  | Err _ => True
+  | Panic | Diverge => False
+  end.
+Proof.
+  induction fuel as [|x fuel IH]; intros off raw acc base Hf Ht; cbn [pion_walk].
+  - cbn [nlen] in Hf. destruct (N.eqb_spec (nlen raw) 0) as [Hz|]; [|lia]. rewrite Hz, N.add_0_r. exact Ht.
+  - destruct (N.eqb_spec (nlen raw) 0) as [Hz|Hnz]; [rewrite Hz, N.add_0_r; exact Ht|].
+    cbn [nlen] in Hf.
+    pose proof (pion_unmarshal1_spec off raw) as H1.
+    destruct (pion_unmarshal1 body off raw) as [[k bp]| | |]; auto.
+    destruct H1 as (Hbp & Hm & _).
+    rewrite nsub_in by lia.
+    specialize (IH (off + bp) (ntake (nlen raw - bp) (ndrop bp raw)) (mkP k off bp POther :: acc) base).
+    assert (Hl : nlen (ntake (nlen raw - bp) (ndrop bp raw)) = nlen raw - bp) by (rewrite nlen_ntake, nlen_ndrop; lia).
+    rewrite Hl in IH.
+    replace (off + bp + (nlen raw - bp)) with (off + nlen raw) in IH by lia.
+    apply IH; [lia|].
+    cbn [rev]. eapply tiles_app; [exact Ht|]. cbn [tiles p_off p_len]. repeat split; auto; lia.
+Qed.
+
+Lemma pion_unmarshal_spec off raw :
+  match pion_unmarshal body off raw with
+  | Ok ps => ps <> [] /\ tiles off ps (off + nlen raw)
+  | Err _ => True
+  | Panic | Diverge => False
+  end.
+Proof.
+  unfold pion_unmarshal.
+  pose proof (pion_walk_spec raw off raw [] off ltac:(lia) eq_refl) as H.
+  destruct (pion_walk body raw off raw []) as [[|p ps]| | |]; auto.
+  split; [discriminate|exact H].
+Qed.
+
+(* rtcp.Unmarshal(inPacket) on the slice the tolerant walk cuts: one packet exactly, or an error *)
+Lemma g_walk_spec : forall fuel off raw acc base,
+  nlen raw <= nlen fuel -> tiles base (rev acc) off ->
+  match g_walk body fuel off raw acc with
+  | Ok (Some ps) => ps <> [] /\ tiles base ps (off + nlen raw)
+  | Ok None => True
+  | Err _ => True
+  | Panic | Diverge => False
+  end.
+Proof.
+  induction fuel as [|x fuel IH]; intros off raw acc base Hf Ht; cbn [g_walk].
+  - cbn [nlen] in Hf. destruct (N.eqb_spec (nlen raw) 0) as [Hz|]; [|lia].
+    destruct acc as [|a acc]; [exact I|]. rewrite Hz, N.add_0_r. split; [|exact Ht].
+    cbn [rev]. intros E. apply (f_equal (@length _)) in E. rewrite app_length in E. cbn in E. lia.
+  - destruct (N.eqb_spec (nlen raw) 0) as [Hz|Hnz].
+    { destruct acc as [|a acc]; [exact I|]. rewrite Hz, N.add_0_r. split; [|exact Ht].
+      cbn [rev]. intros E. apply (f_equal (@length _)) in E. rewrite app_length in E. cbn in E. lia. }
+    cbn [nlen] in Hf.
+    pose proof (rtcp_header_spec raw) as Hh.
+    destruct (rtcp_header_unmarshal raw) as [h| | |]; auto.
+    unfold g_bytes_processed.
+    set (bp := (rh_length h + 1) mod 65536 * 4).
+    destruct (N.ltb_spec (nlen raw) bp) as [|Hbp]; [exact I|].
+    rewrite !nsub_in by lia.
+    replace (bp - 0) with bp by lia. rewrite ndrop_0.
+    assert (Hl : nlen (ntake (nlen raw - bp) (ndrop bp raw)) = nlen raw - bp) by (rewrite nlen_ntake, nlen_ndrop; lia).
+    assert (Hm : bp mod 4 = 0) by (unfold bp; apply N.mod_mul; lia).
+    destruct (negb (rh_type h =? aux_rtcp_type_sdes)).
+    + pose proof (pion_unmarshal_spec off (ntake bp raw)) as Hp.
+      destruct (pion_unmarshal body off (ntake bp raw)) as [[|p [|q qs]]| | |]; auto.
+      destruct Hp as (_ & Hp). cbn [tiles] in Hp. destruct Hp as (_ & Hp4 & _ & Hp).
+      rewrite nlen_ntake in Hp.
+      assert (H4 : 4 <= bp) by lia.
+      specialize (IH (off + bp) (ntake (nlen raw - bp) (ndrop bp raw)) (mkP (p_kind p) off bp POther :: acc) base).
+      rewrite Hl in IH. replace (off + bp + (nlen raw - bp)) with (off + nlen raw) in IH by lia.
+      apply IH; [lia|].
+      cbn [rev]. eapply tiles_app; [exact Ht|]. cbn [tiles p_off p_len]. repeat split; auto.
+    + pose proof (sdes_tolerant_safe (ntake bp raw) h) as Hs.
+      destruct (sdes_tolerant (ntake bp raw) h) as [[[src items]|]| | |] eqn:Es; cbn [safe xsafe] in Hs; auto.
+      assert (H4 : 4 <= bp).
+      { unfold sdes_tolerant, aux_rtcpu_header_length in Es.
+        destruct (negb (rh_count h =? 1) || (nlen (ntake bp raw) <? 4 + 4))%bool eqn:E; [discriminate|].
+        rewrite nlen_ntake in E. lia. }
+      specialize (IH (off + bp) (ntake (nlen raw - bp) (ndrop bp raw)) (mkP k_sdes off bp (PSdes src items) :: acc) base).
+      rewrite Hl in IH. replace (off + bp + (nlen raw - bp)) with (off + nlen raw) in IH by lia.
+      apply IH; [lia|].
+      cbn [rev]. eapply tiles_app; [exact Ht|]. cbn [tiles p_off p_len]. repeat split; auto.
+Qed.
+
+(* rtcpunmarshaler.Unmarshal *)
+Lemma rtcp_unmarshal_spec raw :
+  match rtcp_unmarshal body raw with
+  | Ok (via, ps) => ps <> [] /\ tiles 0 ps (nlen raw) /\ (via = 0 \/ via = 1) /\
+                    (via = 0 <-> pion_unmarshal body 0 raw = Ok ps)
+  | Err e => pion_unmarshal body 0 raw = Err e
+  | Panic | Diverge => False
+  end.
+Proof.
+  unfold rtcp_unmarshal.
+  pose proof (pion_unmarshal_spec 0 raw) as Hp.
+  destruct (pion_unmarshal body 0 raw) as [ps|e| |] eqn:Ep; auto.
+  - destruct Hp as (A & B). rewrite N.add_0_l in B. repeat split; auto.
+  - pose proof (g_walk_spec raw 0 raw [] 0 ltac:(lia) eq_refl) as Hg.
+    destruct (g_walk body raw 0 raw []) as [[ps|]|e'| |]; auto.
+    destruct Hg as (A & B). rewrite N.add_0_l in B. repeat split; auto; try discriminate.
+Qed.
+
+Lemma rtcp_walk_total raw : safe (rtcp_unmarshal body raw).
+Proof.
+  pose proof (rtcp_unmarshal_spec raw) as H.
+  destruct (rtcp_unmarshal body raw) as [[via ps]| | |]; cbn [safe]; auto.
+Qed.
+
+Lemma rtcp_count_bounded raw via ps : rtcp_unmarshal body raw = Ok (via, ps) ->
+  1 <= nlen ps /\ 4 * nlen ps <= nlen raw.
+Proof.
+  intros E. pose proof (rtcp_unmarshal_spec raw) as H. rewrite E in H.
+  destruct H as (Hne & Ht & _). apply tiles_count in Ht.
+  split; [|lia]. destruct ps; [congruence|]. cbn [nlen]. lia.
+Qed.
+End WalkProofs.
+
+(* the hypothesis on the body parsers is needed: a panicking body parser panics the walk *)
+Lemma rtcp_walk_needs_body_total :
+  rtcp_unmarshal (fun _ _ => Panic) [128; 201; 0; 0] = Panic.
+Proof. vm_compute. reflexivity. Qed.
+
+(* ================= statement forms used by the Props files ================= *)
+Lemma fast_rtp_unmarshal_total payload pad hs : (0 <= hs)%Z ->
+  fast_rtp_unmarshal payload pad hs <> Panic /\ fast_rtp_unmarshal payload pad hs <> Diverge.
+Proof. intros H. apply safe_spec, fast_total, H. Qed.
+
+Lemma rtp_header_unmarshal_total' buf :
+  rtp_header_unmarshal buf <> Panic /\ rtp_header_unmarshal buf <> Diverge /\
+  (forall h n, rtp_header_unmarshal buf = Ok (h, n) -> 12 <= n <= nlen buf) /\
+  (forall e, rtp_header_unmarshal buf = Err e -> e = e_rtp_short \/ e = e_rtp_short_ext).
+Proof.
+  pose proof (proj1 (safe_spec _) (rtp_header_unmarshal_total buf)) as [A B].
+  split; [exact A|]. split; [exact B|]. split.
+  - apply rtp_header_size_in_range.
+  - intros e E. pose proof (rtp_header_unmarshal_spec buf) as H. rewrite E in H. exact H.
+Qed.
+
+Lemma rtp_read_path_total' buf :
+  rtp_read_path buf <> Panic /\ rtp_read_path buf <> Diverge /\
+  (forall h n payload, rtp_header_unmarshal buf = Ok (h, n) ->
+     fast_rtp_unmarshal payload (h_padding h) (Z.of_N n) <> Panic /\
+     fast_rtp_unmarshal payload (h_padding h) (Z.of_N n) <> Diverge).
+Proof.
+  pose proof (proj1 (safe_spec _) (rtp_read_path_total buf)) as [A B].
+  split; [exact A|]. split; [exact B|].
+  intros h n payload E. apply safe_spec. eapply rtp_read_path_any_payload_total; eauto.
+Qed.
+
+Lemma fast_vs_pion_refuted : exists buf h n f,
+  rtp_header_unmarshal buf = Ok (h, n) /\
+  fast_rtp_unmarshal buf (h_padding h) (Z.of_N n) = Ok f /\
+  fo_padsize f = 0 /\ h_padding h = true /\
+  pion_packet_unmarshal buf = Err e_rtp_bad_padding.
+Proof.
+  exists [160; 96; 0; 1; 0; 0; 0; 2; 0; 0; 0; 3; 170; 187; 0].
+  eexists. eexists. eexists. vm_compute. repeat split; reflexivity.
+Qed.
+
+Lemma sdes_tolerant_total raw h : sdes_tolerant raw h <> Panic /\ sdes_tolerant raw h <> Diverge.
+Proof. apply safe_spec, sdes_tolerant_safe. Qed.
+
+Section WalkStatements.
+Variable body : N -> list N -> res unit.
+Hypothesis body_total : forall off b, body off b <> Panic /\ body off b <> Diverge.
+
+Lemma body_safe : forall off b, safe (body off b).
+Proof. intros off b. apply safe_spec, body_total. Qed.
+
+Lemma rtcp_walk_total' raw :
+  rtcp_unmarshal body raw <> Panic /\ rtcp_unmarshal body raw <> Diverge.
+Proof. apply safe_spec, rtcp_walk_total, body_safe. Qed.
+
+Lemma rtcp_packets_tile raw via ps : rtcp_unmarshal body raw = Ok (via, ps) ->
+  ps <> [] /\ tiles 0 ps (nlen raw) /\ (via = 0 \/ via = 1) /\ (via = 0 <-> pion_unmarshal body 0 raw = Ok ps).
+Proof.
+  intros E. pose proof (rtcp_unmarshal_spec body body_safe raw) as H. rewrite E in H. exact H.
+Qed.
+
+Lemma rtcp_error_is_pions raw e : rtcp_unmarshal body raw = Err e -> pion_unmarshal body 0 raw = Err e.
+Proof.
+  intros E. pose proof (rtcp_unmarshal_spec body body_safe raw) as H. rewrite E in H. exact H.
+Qed.
+
+Lemma rtcp_count_bounded' raw via ps : rtcp_unmarshal body raw = Ok (via, ps) ->
+  1 <= nlen ps /\ 4 * nlen ps <= nlen raw.
+Proof. apply rtcp_count_bounded, body_safe. Qed.
+End WalkStatements.
